@@ -86,6 +86,26 @@ def prover_run(F):
     return _memo(F, "prover_run", go)
 
 
+def exit_chain(I, ret, fn_pred=None):
+    """Canonical view of a function's exits, independent of the spelling (early `return Err`, tail if/else, negated
+    condition): ([(abort_condition, error_value, where)], final_value).  Top-level guards of the functions selected by
+    fn_pred come first (in program order); then a returned Ite with exactly one Err side is peeled."""
+    from .alg import Cond, Enum, Ite
+
+    chain = [(it[1], it[2], it[3]) for it in I.trace.items if it[0] == "guard" and (fn_pred is None or fn_pred(it[4]))]
+    is_err = lambda v: isinstance(v, Enum) and v.variant == "Err"
+    while isinstance(ret, Ite) and isinstance(ret.cond, Cond):
+        if is_err(ret.b) and not is_err(ret.a):
+            chain.append((ret.cond.negate(), ret.b, "tail"))
+            ret = ret.a
+        elif is_err(ret.a) and not is_err(ret.b):
+            chain.append((ret.cond, ret.a, "tail"))
+            ret = ret.b
+        else:
+            break
+    return chain, ret
+
+
 def flat_trace(items, into=None, depth=0, ctx=()):
     """flatten a structured trace into (item, ctx) pairs; ctx = tuple of enclosing ('star'|'alt-then'|'alt-else', info)"""
     into = [] if into is None else into
